@@ -217,10 +217,10 @@ def correspondence(pid, run, tier, seed, outdir, boost=1):
                 r['errors'].append('no verdict for case %d in %s' % (k, os.path.basename(vf)))
                 continue
             c['_verdict'] = v
-            labels = run.get('labels')
-            mon_from = run.get('monitors_from')  # index in verdict list where monitor flags start
-            agree_flags = v[1:mon_from] if mon_from else v[1:]
-            mon_flags = v[mon_from:] if mon_from else []
+            agree_flags = [v[i] for i in run['agree'] if i < len(v)]
+            mon_flags = [v[i] for i in run.get('monitors', []) if i < len(v)]
+            if len(v) <= max(run['agree'] + run.get('monitors', [])):
+                r['errors'].append('short verdict for case %d' % k)
             if all(x == 1 for x in agree_flags):
                 r['agree'] += 1
             else:
